@@ -4,7 +4,6 @@
 //! whether the server still answers.
 use crate::c09::*;
 use crate::cases::*;
-use crate::ep::{Fv, Sv};
 use crate::gen::*;
 use crate::Server;
 use dsverif::util::{emit, g_bytes, g_list, g_opt, g_str, Rng};
@@ -52,6 +51,26 @@ fn bad_texts_short(rng: &mut Rng, t: Sty) -> Vec<(&'static str, String)> {
             .iter()
             .map(|s| ("unknown-variant", s.to_string()))
             .collect(),
+        Sty::Uuid => [
+            "0011223-4455-6677-8899-aabbccddeeff",
+            "00112233-4455-6677-8899-aabbccddeeffa",
+            "0011223344556677-8899-aabbccddeeff--",
+            "00112233-4455-6677-8899-aabbccddeefg",
+            "00112233445566778899aabbccddeefg",
+            "00112233445566778899aabbccddeef",
+            "{00112233445566778899aabbccddeeff}",
+            "{00112233-4455-6677-8899-aabbccddeeff",
+            "urn:uuid:00112233445566778899aabbccddeeff",
+            "URN:UUID:00112233-4455-6677-8899-aabbccddeeff",
+            "00112233-4455-6677-8899-aabbccddeeff ",
+            "00112233_4455_6677_8899_aabbccddeeff",
+            "not-a-uuid",
+            "0",
+            "\u{ff10}0112233-4455-6677-8899-aabbccddeeff",
+        ]
+        .iter()
+        .map(|s| ("wrong-type", s.to_string()))
+        .collect(),
         Sty::Int { signed, bits } => {
             let max = int_max(signed, bits);
             let minm = int_min_mag(signed, bits);
@@ -225,7 +244,7 @@ pub fn path_bad_wild(rng: &mut Rng) -> Case {
             raws.push(good_segment(rng, Sty::Str, &mut t2));
         }
     }
-    let sp: Spec = vec![("h".into(), Kind::Scalar(th, Pres::Req)), ("rest".into(), Kind::Seq)];
+    let sp: Spec = vec![("h".into(), Kind::Scalar(th, Pres::Req)), ("rest".into(), Kind::Seq(Sty::Str))];
     let mut target = b"/pw/".to_vec();
     target.extend_from_slice(&rh);
     for r in &raws {
@@ -241,6 +260,73 @@ pub fn path_bad_wild(rng: &mut Rng) -> Case {
         g_list(&raws, |r| g_bytes(r))
     );
     base("CPath", "path", "pw", "GET", target, coq_in, tags)
+}
+
+/// a typed wildcard with ONE ill-typed element: first / middle / last, alone
+/// or among valid ones
+pub fn path_bad_wild_typed(rng: &mut Rng, i: usize) -> Case {
+    // String elements never fail: the typed wildcards with a validating element type
+    let typed: Vec<(&str, &str, Sty, bool)> =
+        TYPED_WILD.iter().cloned().filter(|(_, _, t, _)| *t != Sty::Str).collect();
+    let (ep, lit, t, head) = typed[i % typed.len()];
+    let th = Sty::Int { signed: false, bits: 16 };
+    let mut t2 = vec![];
+    let (n, bad_at, pos) = match (i / typed.len()) % 5 {
+        0 => (1, 0, "alone"),
+        1 => {
+            let n = rng.range(2, 5);
+            (n, 0, "first")
+        }
+        2 => {
+            let n = rng.range(3, 6);
+            (n, rng.range(1, n - 2), "middle")
+        }
+        3 => {
+            let n = rng.range(2, 5);
+            (n, n - 1, "last")
+        }
+        _ => {
+            let n = rng.range(2, 6);
+            (n, rng.below(n), "random")
+        }
+    };
+    let (kind, bad) = pick_bad(rng, t);
+    let mut tags = vec![format!("bad:{}", kind), format!("pos:path-wild-typed-{}", pos), format!("type:{}", ep)];
+    let mut target = format!("/{}", lit).into_bytes();
+    let mut ws = String::from("[");
+    let mut sp: Spec = vec![];
+    if head {
+        let rh = good_segment(rng, th, &mut t2);
+        target.push(b'/');
+        target.extend_from_slice(&rh);
+        ws.push_str(&format!("({}, WOne {}); ", g_str("h"), g_bytes(&rh)));
+        sp.push(("h".into(), Kind::Scalar(th, Pres::Req)));
+    }
+    // a second ill-typed element now and then
+    let second_bad = if n > 2 && rng.chance(1, 6) {
+        tags.push("bad:two-bad-elements".into());
+        Some((bad_at + 1 + rng.below(n - 1)) % n)
+    } else {
+        None
+    };
+    let mut raws = vec![];
+    for k in 0..n {
+        let r = if k == bad_at {
+            enc_segment(rng, bad.as_bytes())
+        } else if Some(k) == second_bad {
+            let (_, b2) = pick_bad(rng, t);
+            enc_segment(rng, b2.as_bytes())
+        } else {
+            good_segment(rng, t, &mut t2)
+        };
+        target.push(b'/');
+        target.extend_from_slice(&r);
+        raws.push(r);
+    }
+    ws.push_str(&format!("({}, WMany {})]", g_str("rest"), g_list(&raws, |r| g_bytes(r))));
+    sp.push(("rest".into(), Kind::Seq(t)));
+    let coq_in = format!("{} {} None", g_spec(&sp), ws);
+    base("CPath", "path", ep, "GET", target, coq_in, tags)
 }
 
 pub fn path_bad_opt(rng: &mut Rng) -> Case {
@@ -750,6 +836,9 @@ pub fn gen_all(server: &Server, seed: u64, thorough: bool, out: &mut dyn Write) 
     for _ in 0..20 * mul {
         cases.push(path_bad_opt(&mut rng));
     }
+    for i in 0..120 * mul {
+        cases.push(path_bad_wild_typed(&mut rng, i));
+    }
     cases.extend(no_model_cases());
     for _ in 0..(if thorough { 6 } else { 2 }) {
         cases.extend(json_truncations(&mut rng));
@@ -769,7 +858,6 @@ pub fn gen_all(server: &Server, seed: u64, thorough: bool, out: &mut dyn Write) 
     for i in 0..30 * mul {
         cases.push(all_bad(&mut rng, i));
     }
-    let _ = (Fv::Seq(vec![]), Sv::Bool(true));
     for c in &cases {
         let (obs, port) = run_serial(server, c);
         emit(out, &line_of(c, &obs, port));
